@@ -85,6 +85,8 @@ type Contract struct {
 	Props           []string
 	Requires        []Clause
 	Ensures         []Clause
+	EnsuresLocal    []Clause // proved at the function's exits, never handed to callers (may talk about the function's own locals)
+	EnsuresPanicLoc []Clause // the same for exits by panic
 	EnsuresPanic    []Clause
 	HasEnsuresPanic bool
 	Modifies        []Clause
@@ -146,7 +148,7 @@ func newContractSet() *ContractSet {
 }
 
 var clauseKeywords = map[string]bool{
-	"requires": true, "ensures": true, "ensures_panic": true, "modifies": true, "loop": true, "call": true,
+	"requires": true, "ensures": true, "ensures_local": true, "ensures_panic_local": true, "ensures_panic": true, "modifies": true, "loop": true, "call": true,
 	"ghost": true, "property": true, "float": true, "overflow": true, "trusted": true, "pure": true, "nopanic": true,
 	"may_panic": true, "func": true, "spec": true, "lockinv": true, "guarded_by": true, "owns": true, "extern": true, "lemma": true,
 	"let": true, "captures": true, "hyp": true, "goal": true, "drop": true, "purepkg": true, "flag": true, "results": true,
@@ -655,6 +657,10 @@ func (cs *ContractSet) ParseFile(path, pkgPath string) error {
 				cur.Requires = append(cur.Requires, cs.clause(rest, path, ll.line))
 			case "ensures":
 				cur.Ensures = append(cur.Ensures, cs.clause(rest, path, ll.line))
+			case "ensures_local":
+				cur.EnsuresLocal = append(cur.EnsuresLocal, cs.clause(rest, path, ll.line))
+			case "ensures_panic_local":
+				cur.EnsuresPanicLoc = append(cur.EnsuresPanicLoc, cs.clause(rest, path, ll.line))
 			case "ensures_panic":
 				cur.HasEnsuresPanic = true
 				cur.EnsuresPanic = append(cur.EnsuresPanic, cs.clause(rest, path, ll.line))
